@@ -40,6 +40,7 @@ let run () = iter_lines (fun line ->
       let rs = List.map (fun ((_, _, t) as x) ->
           let st = (match t.kind with
               | 'P' | 'O' -> Code Z0 | 'C' | 'E' -> Code (z_of_int t.code) | 'S' -> Code (z_of_int (if m.cram then 80 else skip_of x))
+              | 'Q' -> if m.cram then ESkipped else Code (z_of_int (skip_of x))
               | 'T' | 'G' -> TimedOut | 'D' -> EDetached | 'K' -> Unknown | _ -> failwith "kind") in
           { status = st; out_ok = (t.kind <> 'O') }) all in
       let total = (match cli_timeout with Some t -> Some (n_of_int t) | None ->
@@ -60,7 +61,7 @@ let run () = iter_lines (fun line ->
       | [] -> []
       | (m, all, _, rs, e) :: rest ->
         let reached =
-          if m.cram then (let rec f i = function [] -> i | (r : rstep) :: t -> (match r.status with Unknown | TimedOut -> i + 1 | _ -> f (i + 1) t) in f 0 rs)
+          if m.cram then (let rec f i = function [] -> i | (r : rstep) :: t -> (match r.status with Unknown | TimedOut | ESkipped -> i + 1 | _ -> f (i + 1) t) in f 0 rs)
           else (match e with
               | ExOk _ -> (let rec f i = function [] -> i | (r : rstep) :: t -> (match r.status with Unknown -> i + 1 | _ -> f (i + 1) t) in f 0 rs)
               | ExSkipped i | ExFailed i -> int_of_nat i + 1
@@ -70,7 +71,7 @@ let run () = iter_lines (fun line ->
     let exp_marks = marks_until plan in
     let has k = List.exists (fun d -> List.exists (fun t -> t.kind = k) d.tests) docs in
     bump (Printf.sprintf "exit:%d" mexit); bump (Printf.sprintf "docs:%d" (List.length mains));
-    List.iter (fun k -> if has k then bump (Printf.sprintf "has:%c" k)) ['P'; 'O'; 'C'; 'E'; 'S'; 'T'; 'G'; 'D'; 'K'];
+    List.iter (fun k -> if has k then bump (Printf.sprintf "has:%c" k)) ['P'; 'O'; 'C'; 'E'; 'S'; 'Q'; 'T'; 'G'; 'D'; 'K'];
     if pres <> [] then bump "has:prepend"; if apps <> [] then bump "has:append";
     if List.exists (fun d -> d.cram) mains then bump "has:cram";
     note_distinct docs_s (List.length (List.concat_map (fun d -> d.tests) docs) >= 2); sample line;
